@@ -184,9 +184,19 @@ FILTER_NAMES = [
 ]
 
 
-def filter_configs(max_len=3, allow_none=True):
-    """None or a list of 1..max_len built-in filter names (a composition)."""
-    comp = st.lists(st.sampled_from(FILTER_NAMES), min_size=1, max_size=max_len)
+CUSTOM_FILTER_NAMES = [
+    "custom_first_job_only",
+    "custom_last_job_only",
+    "custom_hide_earliest",
+    "custom_identity",
+]
+
+
+def filter_configs(max_len=3, allow_none=True, custom=False):
+    """None or a list of 1..max_len filter names (a composition); with
+    custom=True user-written callables are mixed in."""
+    names = FILTER_NAMES + (CUSTOM_FILTER_NAMES if custom else [])
+    comp = st.lists(st.sampled_from(names), min_size=1, max_size=max_len)
     if allow_none:
         return st.one_of(st.none(), comp, comp)
     return comp
